@@ -137,7 +137,7 @@ TourInit ==
   /\ wtx = [on |-> TRUE,
             t |-> ("a" :> NewTable(IF Mode = "table" THEN "t" ELSE "m", "K", "V")),
             psp |-> EmptyFn, open |-> {"a"}, dirty |-> TRUE, poisoned |-> FALSE, d |-> "imm",
-            base |-> 1, pspMod |-> FALSE, inval |-> {}, tainted |-> FALSE]
+            base |-> 1, pspMod |-> FALSE, inval |-> {}, tainted |-> FALSE, cur |-> <<>>]
   /\ path = <<>>
 
 TourNext ==
